@@ -255,6 +255,9 @@ pub struct DocGen<'t> {
     pub t: &'t mut Tape,
     pub opts: GenOpts,
     pub version: u32,
+    /// the version the file declares when it differs from the one its content is generated for (content newer or
+    /// older than the header says: accepted with diagnostics by non-strict loading)
+    pub declared: Option<u32>,
     pub feats: Features,
     counter: u64,
     budget: i64,
@@ -269,7 +272,7 @@ impl<'t> DocGen<'t> {
     pub fn new(t: &'t mut Tape, opts: GenOpts) -> DocGen<'t> {
         let version = *t.pick(&VERSIONS);
         let budget = opts.budget;
-        DocGen { t, opts, version, feats: Features::default(), counter: 0, budget, a2ml_variant: None, a2ml_count: 0 }
+        DocGen { t, opts, version, declared: None, feats: Features::default(), counter: 0, budget, a2ml_variant: None, a2ml_count: 0 }
     }
 
     fn vok(&self, min: Option<u32>, max: Option<u32>) -> bool {
@@ -503,7 +506,8 @@ impl<'t> DocGen<'t> {
             match p {
                 Param::Single(f) => {
                     if tag == "ASAP2_VERSION" {
-                        let v = if f.name == "version_no" { self.version / 100 } else { self.version % 100 };
+                        let dv = self.declared.unwrap_or(self.version);
+                        let v = if f.name == "version_no" { dv / 100 } else { dv % 100 };
                         node.body.push(Item::Tok(v.to_string()));
                     } else if pi == 0 && f.name == "position" && f.ty == "uint" {
                         // position-restricted siblings (children of RECORD_LAYOUT) are emitted in ascending position
